@@ -10,4 +10,6 @@ for d in sorted(glob.glob(os.path.join(V, "seeded", "C*"))):
     sid = m["id"]
     one = hist.get(sid, {}).get("summary") or m["needs_to_manifest"][:160]
     first = hist.get(sid, {}).get("first_run", "caught")
-    print(f"| {sid} | {one} | {', '.join(m['quick_checks_that_report_it']) or '**none**'} | {first} |")
+    th = m.get("thorough_checks_that_report_it")
+    rep = ", ".join(m["quick_checks_that_report_it"]) or ("thorough: " + ", ".join(th) if th else "**none**")
+    print(f"| {sid} | {one} | {rep} | {first} |")
